@@ -287,9 +287,28 @@ def oracleExpect (c : CaseIn) (chunks : List Bytes) (rkv : KV) : Option String :
     | some want =>
       let g := ";".intercalate bevs
       if "=" ++ g = want then none else some (c.camp ++ ":xb:got=" ++ g ++ ":want" ++ want)
+  -- a row whose field count lies: exactly the rows before it, then an error (C14)
+  let chkBK : Option String := match c.kv.lookup "xbk" with
+    | none => none
+    | some want =>
+      let good := (((want.drop 1).toString.splitOn ";").filter (· ≠ ""))
+      let got := bevs.take good.length
+      if got ≠ good then some (c.camp ++ ":rows-before-the-bad-row:got=" ++ ";".intercalate got)
+      else match bevs.drop good.length with
+        | e :: _ => if e.startsWith "b-" then none else some (c.camp ++ ":field-count-mismatch-not-reported:got=" ++ e)
+        | [] => some (c.camp ++ ":field-count-mismatch-not-reported:no-further-read")
+  -- a truncated stream / data after the trailer: every row returned is a row the client encoded
+  let chkBG : Option String := match c.kv.lookup "xbg" with
+    | none => none
+    | some want =>
+      let good := (((want.drop 1).toString.splitOn ";").filter (· ≠ ""))
+      let rows := bevs.filter (·.startsWith "b+")
+      if rows = good.take rows.length then none else some (c.camp ++ ":fabricated-row:got=" ++ ";".intercalate rows)
   (chk "xp" afterZ).orElse fun _ =>
   chkEv.orElse fun _ =>
   chkB.orElse fun _ =>
+  chkBK.orElse fun _ =>
+  chkBG.orElse fun _ =>
   chkK.orElse fun _ =>
   (chk "xpre" notes).orElse fun _ =>
   match c.kv.lookup "xend" with
